@@ -185,6 +185,17 @@ def step (_ : Unit) (ws : List String) : Unit × String :=
         | .error e => ((), s!"err {vaultErrName e}")
       else ((), "bad-op")
     | _, _ => ((), "bad-op")
+  | ["vaultwrite", key, r] =>
+    -- Client::get_or_create_scratchpad: how the write path starts
+    match key.toNat?, parseReply r with
+    | some key, some r =>
+      if key < 3 then
+        match getOrCreate padKey key r with
+        | .existing p => ((), s!"existing {p.owner}.{p.ctr}.{p.ver} t={contentTypeOf p}")
+        | .fresh => ((), "new")
+        | .error c => ((), s!"err {c}")
+      else ((), "bad-op")
+    | _, _ => ((), "bad-op")
   | ["vaultperm", key, r] =>
     match key.toNat?, parseReply r with
     | some key, some (.err (.split m)) =>
